@@ -3,7 +3,7 @@
    tokenSource and reformatDescription. *)
 From Coq Require Import String List NArith ZArith Bool.
 From J5V.lib Require Import Text Outcome Corr.
-From J5V.model Require Import BclLexer BclParser BclFmt.
+From J5V.model Require Import BclLexer BclParser BclFmt BclCli.
 Import ListNotations.
 Local Open Scope bool_scope.
 
@@ -28,7 +28,12 @@ Inductive fmtcase :=
 (* tokenSource(Token{Type, Lit}) *)
 | CTokSrc (code : N) (lit : list N) (out : list N)
 (* reformatDescription(input, maxWidth) *)
-| CReflow (input : list N) (maxw : Z) (out : list (list N)).
+| CReflow (input : list N) (maxw : Z) (out : list (list N))
+(* `j5 j5s fmt` (runJ5sFmt) on a file tree: target 0 = --dir, 1 = --file fpath, 2 = both; the files before and
+   after (same order), and whether the command returned an error *)
+| CCli (target : N) (fpath : path) (write : bool) (before after : tree) (failed : bool).
+
+Definition entry_eqb (a b : path * list N) : bool := path_eqb (fst a) (fst b) && list_N_eqb (snd a) (snd b).
 
 Definition fmt_check (c : fmtcase) : bool :=
   match c with
@@ -49,4 +54,8 @@ Definition fmt_check (c : fmtcase) : bool :=
     end
   | CTokSrc code l out => list_N_eqb (token_source (mkTok (ttype_of_code code) l pos0 pos0)) out
   | CReflow input maxw out => list_eqb list_N_eqb (reformat_description input maxw) out
+  | CCli target fpath write before after failed_obs =>
+    let out := run_fmt (if N.eqb target 0 then TDir else if N.eqb target 1 then TFile fpath else TBoth fpath) write before in
+    list_eqb entry_eqb (fs_after out) after &&
+    Bool.eqb (match failed out with Some _ => true | None => false end) failed_obs
   end.
